@@ -24,7 +24,26 @@ def close10(a, b):
     return abs(a - b) <= 5.0e-10 * abs(a) * (1 + 1e-6)
 
 
-def compare_decks(d1, d2):
+_TEMP_ITEMS = None
+
+
+def temperature_items():
+    """(deck keyword name, item name) of every item with a temperature dimension: their SI value carries an offset
+    (273.15 K, 459.67 R), so converting to SI and back keeps ~1e-13 ABSOLUTE, not 10 relative digits"""
+    global _TEMP_ITEMS
+    if _TEMP_ITEMS is None:
+        t = set()
+        for k in deckgen.grammar().values():
+            for rec in k.records:
+                for it in rec:
+                    if any("Temperature" in d for d in it.dims):
+                        for n in set(k.deck_names) | {k.name}:
+                            t.add((n, it.name))
+        _TEMP_ITEMS = t
+    return _TEMP_ITEMS
+
+
+def compare_decks(d1, d2, si_first=False):
     n1 = [k["kw"] for k in d1]
     n2 = [k["kw"] for k in d2]
     if n1 != n2:
@@ -68,6 +87,8 @@ def compare_decks(d1, d2):
                         ok = a == b
                     elif t == 4:
                         ok = close10(a, b)
+                        if not ok and si_first and (kw, i1["n"]) in temperature_items():
+                            ok = abs(dbl(a) - dbl(b)) <= 1e-9
                     else:
                         ok = a[0] == b[0] and (a[0] == "undef" or (a[1] == b[1] if a[0] == "s" else close10(a[1], b[1])))
                     if not ok:
@@ -100,6 +121,25 @@ def has_near_max(deck):
     return False
 
 
+def has_extreme(deck):
+    """a double outside [1e-280, 1e280] (and not 0): converting it to SI and back (factors between 1e-15 and 1e8)
+    underflows / overflows, so such decks are written without a previous SI read"""
+    for kw in deck["kws"]:
+        for r in _all_recs(kw):
+            for item in r["model"]:
+                for st_, v in item:
+                    if isinstance(v, list):
+                        v = v[1] if v[0] == "d" else None
+                    if isinstance(v, str) and v.startswith(("0x", "-0x")):
+                        try:
+                            a = abs(float.fromhex(v))
+                        except ValueError:
+                            continue
+                        if a != 0.0 and not (1e-280 <= a <= 1e280):
+                            return True
+    return False
+
+
 def all_default_record(deck):
     """shape of a recorded finding: a record made of defaults only in a keyword where a lone slash is a terminator"""
     for kw in deck["kws"]:
@@ -112,7 +152,8 @@ def all_default_record(deck):
 
 @st.composite
 def case_strategy(draw):
-    return {"deck": draw(deckgen.gen_deck(avoid_all_default=True))}
+    # si_first: the SI view of every item is read before the Deck is written (a Deck that has been used)
+    return {"deck": draw(deckgen.gen_deck(avoid_all_default=True)), "si_first": draw(st.booleans())}
 
 
 class C19(Check):
@@ -141,10 +182,12 @@ class C19(Check):
     def enumerate(self, tier):
         for p in SHIPPED:
             yield {"shipped": os.path.relpath(p, deckgen.REPO)}
+        for p in SHIPPED:
+            yield {"shipped": os.path.relpath(p, deckgen.REPO), "si_first": True}
 
     def classify(self, case):
         if "shipped" in case:
-            return True, "shipped:" + case["shipped"], ["shipped-deck"]
+            return True, "shipped:" + case["shipped"] + (":si" if case.get("si_first") else ""), ["shipped-deck"] + (["si-read-before-print"] if case.get("si_first") else [])
         deck = case["deck"]
         labels = set()
         nontriv = False
@@ -172,6 +215,8 @@ class C19(Check):
                             nontriv = True
                 if r["atoms"] and all(a[0] == "d" for a in r["atoms"]):
                     labels.add("all-default-record")
+        if case.get("si_first"):
+            labels.add("si-read-before-print")
         return nontriv, sha([[k["name"] for k in deck["kws"]], sorted(labels), deck], 16), sorted(labels)
 
     def sample_view(self, case):
@@ -188,7 +233,7 @@ class C19(Check):
         known_shape = None
         if "shipped" in case:
             try:
-                r = P.call("print_parse", path=os.path.join(deckgen.REPO, case["shipped"]), ctx="default")
+                r = P.call("print_parse", path=os.path.join(deckgen.REPO, case["shipped"]), ctx="default", si_first=bool(case.get("si_first")))
             except LibError:
                 raise Discard()        # a shipped deck that does not parse on its own (needs other context)
             text = None
@@ -197,7 +242,10 @@ class C19(Check):
             text = files[root]
             if has_near_max(case["deck"]):
                 raise Discard()     # see ASSUMPTIONS: 10-digit rounding of |x| within 1e-10 of DBL_MAX overflows
-            r = P.call("print_parse", text=text, ctx="strict")
+            si = bool(case.get("si_first")) and not has_extreme(case["deck"])
+            if si:
+                ctx.label("si-read-before-print:applied")
+            r = P.call("print_parse", text=text, ctx="strict", si_first=si)
             known_shape = all_default_record(case["deck"])
 
         def V(rule, detail, kw=None, key=None):
@@ -215,7 +263,7 @@ class C19(Check):
             kw = None
             return V("printed deck does not parse", {"error": err[:600], "printed": r["t1"][:1500], "input": (text or case.get("shipped"))[:1200]},
                      )
-        diff = compare_decks(r["d1"], r["d2"])
+        diff = compare_decks(r["d1"], r["d2"], si_first=("shipped" in case and bool(case.get("si_first"))) or ("shipped" not in case and si))
         if diff:
             return V("reparsed deck differs: " + diff[0], {"diff": diff[1], "printed": r["t1"][:1500] if text else None,
                                                           "input": (text or case.get("shipped"))[:1200]}, kw=diff[2],
